@@ -41,8 +41,8 @@ def _t(kind, add=0, children=None):
     return {"kind": kind, "add": add, "children": children or []}
 
 
-def _c(t, k="c", v=0, i=0):
-    return {"t": t, "k": k, "v": v, "i": i}
+def _c(t, k="c", v=0, i=0, g=0):
+    return {"t": t, "k": k, "v": v, "i": i, "g": g}
 
 
 def curated_programs() -> list[dict]:
@@ -142,6 +142,17 @@ def curated_programs() -> list[dict]:
                          "block": {"units": {"r": 2}, "vers": [_t("leaf", 3)]},
                          "leaf": {"units": {"r": 1}, "vers": [_t("leaf", 1)]}},
                "plan": [RUN]})
+    # 13. caught failures: duplicates of a failing call queued behind a limit, each wrapped in catch;
+    #     the second is nominated only after the first was finalized (CSE hit on an error), a consumer
+    #     waits behind them; second run replays the stored recoveries
+    ps.append({"ns": "cur13", "res": ["r"], "limits": {"r": 1}, "root": {"t": "main", "arg": 0},
+               "tasks": {"main": {"units": {}, "vers": [_t("calls", 0, [_c("leaf", "c", 1), _c("mid", "c", 1),
+                                                                     _c("mid", "c", 2), _c("leaf", "c", 4)])]},
+                         "mid": {"units": {}, "vers": [_t("calls", 0, [_c("bad", "c", 9, g=1), _c("plain", "p", 0)])]},
+                         "leaf": {"units": {"r": 1}, "vers": [_t("leaf", 1)]},
+                         "plain": {"units": {}, "vers": [_t("leaf", 2)]},
+                         "bad": {"units": {"r": 1}, "vers": [_t("fail"), _t("leaf", 3)]}},
+               "plan": [RUN, RUN]})
     return [progen.normalize(p) for p in ps]
 
 
